@@ -14,7 +14,7 @@ func init() {
 		ID:              "C09",
 		HangIsViolation: true,
 		Technique:       "fault enumeration by deviation-bounded DFS: every program is started on the real container with every reached fault site armed alone and in every reachable pair (callbacks return an injected error), plus every unsatisfiable required / optional point and configuration value as a program variant; oracle: error returned, no panic, termination by budget, no runner invoked; optional-only variants behave like the fault-free program",
-		Rule:            "base programs = all labelled 3-node graphs over {none, by-name, slice member} x lazy masks {none, a, c}, one configuration value per node, one user post-processor implementing every callback, one scanner, one factory post-processor, three loaders (only the first carries needed values), two runners; fault sites = the reached callbacks (AfterPropertiesSet, Init, six post-processor callbacks x node, scanner x node, factory post-processor, loaders, runners); deviation bound 2 (all singles, all reachable pairs); variants = {by-name, by-type, func-tag, user-defined component tag, value-tag config, prefix-tag config} x {required, optional} unsatisfiable point on each node; non-trivial = execution with at least one armed fault or unsatisfiable point",
+		Rule:            "base programs = all labelled 3-node graphs over {none, by-name, slice member} x lazy masks {none, a, c}, one configuration value per node, one user post-processor implementing every callback, one scanner, one factory post-processor, three loaders (only the first carries needed values), two runners; fault sites = the reached callbacks (AfterPropertiesSet, Init, six post-processor callbacks x node, scanner x node, factory post-processor, loaders, runners); deviation bound 2 (all singles, all reachable pairs); variants = {by-name, by-type, func-tag, user-defined component tag, value-tag config, prefix-tag config} x {required, optional} unsatisfiable point on each node; non-trivial = execution with at least one armed fault or unsatisfiable point. Families added in later rounds (look-ups inside Init, retries after an abandoned attempt, user extension points at every Order, several containers, odd names / types / values) are listed per part in this file and described in MANIFEST.json (level_claimed.text) and DESIGN §7",
 		Assumptions: []string{
 			"faults are errors returned by harness callbacks; panics inside user callbacks are outside the statement",
 			"three or more simultaneous faults are not covered",
